@@ -3,7 +3,7 @@ current tree), how they are run in each tier, the floors a run must reach, and t
 into the evidence files.  Read by vcheck.py."""
 
 FCO = ["-fsanitize=float-cast-overflow"]
-NONULL = ["-fno-sanitize=null"]
+NONULL = ["-fno-sanitize=null", "-fno-sanitize=nonnull-attribute"]
 
 
 
